@@ -1074,7 +1074,7 @@ impl Probe {
         let incoming: Vec<_> = msg
             .authorities()
             .iter()
-            .filter(|r| r.get_name() == probe_name)
+            .filter(|r| r.get_name().eq_ignore_ascii_case(probe_name))
             .collect();
         /*
         RFC 6762 section 8.2: https://datatracker.ietf.org/doc/html/rfc6762#section-8.2
